@@ -76,7 +76,7 @@ func scenarioClient(sp Spec, oc *Outcome) {
 		mute = m
 		addr = m.ln.Addr().String()
 	default:
-		o := srvOpts{writeTimeout: 2 * time.Second, withStream: true}
+		o := srvOpts{writeTimeout: 2 * time.Second, withStream: true, multicast: sp.Peers[0].Proto == "mcast", seed: sp.Seed}
 		if sp.ServerKind == "stall" {
 			o.stall = &stall
 			o.rcvbuf = 2048
